@@ -49,7 +49,7 @@ fn split_mean(values: &[Decimal]) -> Option<Decimal> {
 }
 
 fn gamma(a: Decimal) -> Option<Decimal> {
-    let pi = Decimal::new(3141592653589793238, 18); // 3.14159265358979323846264338327950288419716939937510582
+    let pi = Decimal::PI; // all 28 digits: next to a negative integer sin(pi * a) magnifies the error of pi
     if a < Decimal::new(5, 1) {
         // reflection formula: gamma(a) = pi / (sin(pi * a) * gamma(1 - a))
         let compute_sin = pi.checked_mul(a)?.checked_sin()?;
